@@ -136,6 +136,7 @@ CHECKS = {
         "tests": [
             {"name": "TestC11Include", "checks": [3000, 100000], "shards": [2, 16], "floor": 0.85},
             {"name": "TestC11Options", "enum": True},
+            {"name": "TestC11Relative", "enum": True},
             K,
         ],
         "assumptions": ["only the hash-literal form of `with` is generated (the README documents no other)",
